@@ -13,7 +13,7 @@ from checks.brokerlib import parse_out
 
 
 def main(tier=None):
-    c = Check("C18", ["Wasp.Properties.C18", "Wasp.Properties.Facts.C18", "Wasp.Properties.C18E2E"], tier)
+    c = Check("C18", ["Wasp.Properties.Facts.Wiring", "Wasp.Properties.C18", "Wasp.Properties.Facts.C18", "Wasp.Properties.C18E2E"], tier)
     c.build()
     rng = c.rng
     samples = []
@@ -80,7 +80,7 @@ def main(tier=None):
     c.run_suite(Suite("hostile-streams-with-witness", "broker", ops, mon, {"cases": cases, "nontrivial": cases}, resets=("reset",), retry_args=["200"]), timeout=3000)
     samples.append({"suite": "hostile-streams-with-witness", "ops": [o[:100] for o in ops[4:12]]})
     from checks import brokerlib
-    scs = brokerlib.corpus(c.rng, ["ids-return-after-recipient-vanished", "setup-workers-survive-panics"])
+    scs = brokerlib.corpus(c.rng, ["ids-return-after-recipient-vanished", "setup-workers-survive-panics", "split-length-field-among-many"])
     scs += [brokerlib.gen_abandoned_exchanges(c.rng) for _ in range(3 if c.tier == "quick" else 40)]
     brokerlib.run_scenarios(c, "abandoned-exchanges-with-witness", scs, samples)
     c.assumptions += ["the MQTT decoder (module cache) is modelled, not verified", "memory exhaustion and a client that stops READING (writer blocked until its deadline) are outside the model: partial for 'stall'"]
